@@ -50,9 +50,12 @@ func (a *chunkAbort) unmarshal(raw []byte) error {
 		return fmt.Errorf("%w: actually is %s", ErrChunkTypeNotAbort, a.typ.String())
 	}
 
-	offset := chunkHeaderSize
-	for len(raw)-offset >= 4 {
-		e, err := buildErrorCause(raw[offset:])
+	// Error causes are parsed from this chunk's own value only: raw may also
+	// hold the chunks that follow this one in the packet.
+	value := a.raw
+	offset := 0
+	for len(value)-offset >= 4 {
+		e, err := buildErrorCause(value[offset:])
 		if err != nil {
 			return fmt.Errorf("%w: %v", ErrBuildAbortChunkFailed, err) //nolint:errorlint
 		}
